@@ -32,6 +32,14 @@ Round 5: the configuration is complete when it is parsed - no write into `config
    hand it on (C17-D4-absence-sentinel-survives-copies); every placeholder a template's construction-time check
    hands on has passed a test admitting plain identifier-like names only, which is what `template.format(**values)`
    can resolve as a keyword (C17-D4-template-placeholders-renderable).
+Round 6: what runs is what the gates looked at - the constructor of the object `.process` is called on receives the
+   very expression build_pipeline_inspection received, not rebound / modified in between
+   (C17-D4-executed-config-is-inspected-config), building nodes for inspection leaves the caller's node configuration
+   as it was and the run side hands the declared parameters on (C17-D4/C02-D7, C17-D4/C02-D8 re-applied), and the
+   `parameters` metadata the builder reads lists every parameter kind the node resolves at run time, generated IO
+   adapter classes included (C17-D4/C02-D6 re-applied); the expansion gate rejects two columns re-keyed onto one
+   name: a store under a key looked up in a rename table is reachable only over an edge that established
+   `key not in <filed so far>` with a raising other side (C17-D1-rekeyed-entries-collision-rejected).
 """
 from __future__ import annotations
 
@@ -106,7 +114,7 @@ def run(repo: Repo, R: Report) -> None:
         PCFG, CONFIG = dotted_name(pcs[0].targets[0]), dotted_name(pcs[0].value.args[0])
     else:
         PCFG, CONFIG = name_of(m[1], "_PC_"), name_of(m[1], "_CFG_")
-    mi = find1(fn, f"_I_ = build_pipeline_inspection({PCFG}.nodes)")
+    mi = find1(fn, f"_I_ = build_pipeline_inspection({PCFG}.nodes)") or find1(fn, "_I_ = build_pipeline_inspection(_X_)")
     INSP = name_of(mi[1], "_I_") if mi else "__missing__"
     # --context dictionary: filled in the loop over args.contexts
     CTX = None
@@ -188,7 +196,7 @@ def run(repo: Repo, R: Report) -> None:
     for ok, stmt, what, line in missing_key_gate(repo, fn, MISSING, INSP, CTX):
         R.check(ok, r_miss, CLI, "_run", stmt, what, line or fn.lineno)
     insp = assigned_value(fn, INSP)
-    ok = any(isinstance(v, ast.Call) and call_attr(v) == "build_pipeline_inspection" and v.args and PCFG in ast.unparse(v.args[0]) for v in insp)
+    ok = any(isinstance(v, ast.Call) and call_attr(v) == "build_pipeline_inspection" and v.args and PCFG in ast.unparse(_canon_local(fn, v.args[0])) for v in insp)
     R.check(ok, r_miss, CLI, "_run", "inspection = build_pipeline_inspection(pipeline_cfg.nodes)", "the inspected nodes are not the parsed configuration's nodes", fn.lineno)
 
     # flags reach the gates: sections written from args.* are attached to config before parsing
@@ -353,12 +361,14 @@ def run(repo: Repo, R: Report) -> None:
         c02.required_keys_rule(repo, R)
     finally:
         R.rule_prefix = ""
+    inspected_is_executed_rule(repo, R, fn, g, PCFG)
     validation_gate_rule(repo, R)
     compat_test_rule(repo, R)
     runs_share_key_shape_rule(repo, R, fn)
     cap_value_rule(repo, R, fn)
     dry_run_request_rule(repo, R, fn)
     position_merge_rule(repo, R)
+    rekeying_collision_rule(repo, R)
     absence_sentinel_rule(repo, R)
     template_placeholder_rule(repo, R)
     # the expansion gate rejects an unreadable source with the configuration-error exit: every failure of reading a
@@ -2653,3 +2663,282 @@ def template_placeholder_rule(repo: Repo, R: Report) -> None:
                     R.check(not hit, r, mod.rel, qn, norm(st)[:100], (f"the field name `{FN}` taken from `{norm(lp.iter)[:50]}` is handed on as a placeholder without having passed a test that admits plain identifier-like names only{detail}: the construction-time check (inspection / validate_pipeline, --validate, --dry-run) then accepts a template such as 'run_{{run.id}}.txt', `run.id` becomes an ordinary required context key that --context / the run space can supply, the missing-key gate passes and the CLI executes the pipeline - but `{norm(tmpl)[:30]}.format(**values)` reads `run.id` as attribute `id` of keyword `run` and raises, after the nodes in front of the template node already ran (sink output, trace file; exit 4 instead of the configuration error exit 3)" if hit else ""), st.lineno, g.path_to(seen, hit[0]) if hit else None)
     if n_sites == 0:
         R.ok(r, "semantiva", "<package>", "(no function extracts placeholders with string.Formatter().parse)", "", 0)
+
+
+# ---------------------------------------------------------------------------------------------
+# D4 (round 6): what runs is what was inspected; inspection sees every parameter run time resolves
+# ---------------------------------------------------------------------------------------------
+def _canon_local(fn: ast.AST, e: ast.AST, depth: int = 0) -> ast.AST:
+    """*e* with a local that only names another expression (bound exactly once in *fn*, by a plain assignment)
+    replaced by that expression: `nodes = cfg.nodes; f(nodes)` is `f(cfg.nodes)`."""
+    while isinstance(e, ast.Name) and depth < 4:
+        vals = assigned_value(fn, e.id)
+        n_binds = sum(1 for x in walk_no_nested(fn) if isinstance(x, ast.Name) and x.id == e.id and isinstance(x.ctx, (ast.Store, ast.Del)))
+        if len(vals) != 1 or n_binds != 1 or not isinstance(vals[0], (ast.Name, ast.Attribute, ast.Subscript)):
+            break
+        e, depth = vals[0], depth + 1
+    return e
+
+
+def _access_chain_has(e: Optional[ast.AST], xdump: str) -> bool:
+    """*e* is the expression dumped as *xdump* or an access chain through it (`X[k]`, `X.attr`, `X.get(k)` ...)."""
+    while e is not None:
+        if ast.dump(e) == xdump:
+            return True
+        if isinstance(e, (ast.Subscript, ast.Attribute, ast.Starred)):
+            e = e.value
+        elif isinstance(e, ast.Call) and isinstance(e.func, ast.Attribute) and e.func.attr in ("get", "setdefault") and e.args:
+            e = e.func.value
+        else:
+            return False
+    return False
+
+
+def inspected_is_executed_rule(repo: Repo, R: Report, fn: ast.AST, g: CFG, PCFG: str) -> None:
+    """Every gate of `_run` that looks at the nodes (inspection, validation, the required-key pre-flight) decides on
+    the object handed to `build_pipeline_inspection`; the run executes the object handed to the constructor of what
+    `.process(...)` is called on.  The gates say something about the run only if (a) `_run` hands the same object to
+    both and does not rebind / modify it in between, (b) building the nodes for inspection leaves the caller's node
+    configuration as it was and the run side hands the declared parameters on unchanged (C02's value-flow rules
+    D7 / D8, re-applied: the interface between inspection/builder.py, pipeline.py and the node factory), and
+    (c) the parameter names inspection classifies are the ones the node resolves at run time, for every processor
+    family incl. generated adapter classes (C02-D6 re-applied: the interface between the `parameters` metadata the
+    builder reads and get_processing_parameter_names the node reads)."""
+    r = R.rule("C17-D4-executed-config-is-inspected-config", "the object _run executes (first argument of the constructor of what `.process(...)` is called on) is the very expression build_pipeline_inspection received, the local it is taken from is not rebound between the two, and no statement of _run reachable after the inspection stores into it, deletes from it or calls a mutating container method on it: what was validated and checked for missing keys is what runs", 2)
+    insp_nodes = [n for n in g.nodes if n.kind == "stmt" and n.ast is not None and any(call_attr(c) == "build_pipeline_inspection" and c.args for c in calls_in(n.ast))]
+    if not insp_nodes:
+        raise AnalysisError("_run: build_pipeline_inspection(<nodes>) not found in the control-flow graph")
+    insp_node = insp_nodes[0]
+    X = _canon_local(fn, next(c for c in calls_in(insp_node.ast) if call_attr(c) == "build_pipeline_inspection" and c.args).args[0])
+    xdump = ast.dump(X)
+    root = _container_root(X)
+    procs = [(n, c) for n in g.nodes if n.kind == "stmt" and n.ast is not None for c in calls_in(n.ast) if isinstance(c.func, ast.Attribute) and c.func.attr == "process"]
+    if not procs or not isinstance(procs[0][1].func.value, ast.Name):
+        raise AnalysisError("_run: receiver of .process(...) is not a local")
+    pn, pc = procs[0]
+    P = pc.func.value.id
+    ctor_defs = [d for d in reaching_defs(g, P, pn.id)]
+    if not ctor_defs:
+        raise AnalysisError(f"_run: no definition of `{P}` reaches `{norm(pn.ast)[:60]}`")
+    for d in ctor_defs:
+        v = getattr(d.ast, "value", None)
+        given = None
+        if isinstance(v, ast.Call):
+            given = v.args[0] if v.args else next((k.value for k in v.keywords if k.arg in ("pipeline_configuration", "nodes", "configuration")), None)
+        same = given is not None and ast.dump(_canon_local(fn, given)) == xdump
+        ok = same
+        what = ""
+        if same and root is not None:
+            a, b = {x.id for x in reaching_defs(g, root, insp_node.id)}, {x.id for x in reaching_defs(g, root, d.id)}
+            if a != b:
+                ok, what = False, f"`{root}` is rebound between build_pipeline_inspection({norm(X)}) and `{norm(d.ast)[:60]}`: the pipeline is built from another configuration object than the one that was inspected, validated and checked for missing context keys"
+        elif not same:
+            what = f"`{norm(d.ast)[:80]}` builds the pipeline that runs from `{norm(given)[:50] if given is not None else '?'}`, not from `{norm(X)}`, the object build_pipeline_inspection / validate_pipeline / the missing-key pre-flight looked at: a configuration the gates would reject (or whose required context keys differ) is executed"
+        R.check(ok, r, CLI, "_run", f"{P} = <constructor>({norm(X)}, ...)", what, getattr(d.ast, "lineno", fn.lineno))
+    # no modification of the inspected object after the inspection
+    after = set(g.reach([t for t, lab in g.succ[insp_node.id] if lab not in (EXC, BASE)]))
+    aliases = {n.targets[0].id for n in walk_no_nested(fn) if isinstance(n, ast.Assign) and len(n.targets) == 1 and isinstance(n.targets[0], ast.Name) and _access_chain_has(n.value, xdump)}
+    bad: List[Tuple[ast.AST, str]] = []
+
+    def touches(e: Optional[ast.AST]) -> bool:
+        return _access_chain_has(e, xdump) or (_container_root(e) in aliases if e is not None else False)
+
+    for n in walk_no_nested(fn):
+        if isinstance(n, (ast.Assign, ast.AugAssign, ast.AnnAssign, ast.Delete)):
+            tgts = n.targets if isinstance(n, (ast.Assign, ast.Delete)) else [n.target]
+            for t in tgts:
+                for x in ([t] if not isinstance(t, (ast.Tuple, ast.List)) else t.elts):
+                    if isinstance(x, (ast.Subscript, ast.Attribute)) and (touches(x.value) or ast.dump(x).replace("Store()", "Load()").replace("Del()", "Load()") == xdump):
+                        bad.append((n, f"`{norm(n)[:70]}`"))
+        elif isinstance(n, ast.Call) and isinstance(n.func, ast.Attribute) and n.func.attr in _CONTAINER_MUTATORS and touches(n.func.value):
+            bad.append((n, f"`{norm(n)[:70]}`"))
+    late = []
+    for node, what in bad:
+        st = node if isinstance(node, ast.stmt) else stmt_of(node)
+        if any(i in after for i in g.nodes_for(st)):
+            late.append((st, what))
+    for st, what in late:
+        R.violation(r, CLI, "_run", norm(st)[:100], f"{what} modifies `{norm(X)}` after build_pipeline_inspection has looked at it: validation and the missing-key pre-flight describe the node list as it was, the pipeline that runs is built from the modified one", getattr(st, "lineno", fn.lineno))
+    if not late:
+        R.ok(r, CLI, "_run", f"no store into `{norm(X)}` reachable after the inspection", "", insp_node.line)
+    # (b), (c): the module-boundary conditions, decided by C02's rules
+    from . import c02_rest
+
+    R.rule_prefix = "C17-D4/"
+    try:
+        c02_rest._same_node_config(repo, R)
+        c02_rest._parameter_universe(repo, R)
+    finally:
+        R.rule_prefix = ""
+
+
+# ---------------------------------------------------------------------------------------------
+# D1 (round 6): the expansion gate rejects two columns re-keyed onto one name
+# ---------------------------------------------------------------------------------------------
+_EMPTY_MAP_CALLS = ("dict", "OrderedDict", "defaultdict")
+
+
+def _is_empty_map(v: Optional[ast.AST]) -> bool:
+    if isinstance(v, ast.Dict) and not v.keys:
+        return True
+    return isinstance(v, ast.Call) and (call_attr(v) or "") in _EMPTY_MAP_CALLS and not v.keywords and (not v.args or (call_attr(v) == "defaultdict" and len(v.args) == 1))
+
+
+def _loop_key(lp: ast.AST) -> Tuple[Optional[str], Optional[ast.AST]]:
+    """(name bound to the entry's key, the mapping walked) of `for k, v in M.items()` / `for k in M` / `for k in M.keys()`
+    / `for k in sorted(M)`; also for a comprehension generator."""
+    it, tgt = lp.iter, lp.target
+    while isinstance(it, ast.Call) and isinstance(it.func, ast.Name) and it.func.id in ("sorted", "list", "tuple", "iter") and it.args:
+        it = it.args[0]
+    if isinstance(it, ast.Call) and isinstance(it.func, ast.Attribute) and it.func.attr == "items" and not it.args:
+        if isinstance(tgt, ast.Tuple) and len(tgt.elts) == 2 and isinstance(tgt.elts[0], ast.Name):
+            return tgt.elts[0].id, it.func.value
+        return None, None
+    if isinstance(it, ast.Call) and isinstance(it.func, ast.Attribute) and it.func.attr == "keys" and not it.args:
+        it = it.func.value
+    if isinstance(tgt, ast.Name) and isinstance(it, (ast.Name, ast.Attribute, ast.Subscript)):
+        return tgt.id, it
+    return None, None
+
+
+def _lookups_keyed_by(e: ast.AST, key: str, not_in: Set[str]) -> List[ast.AST]:
+    """Sub-expressions of *e* that look the name *key* up in a mapping other than those dumped in *not_in*:
+    `M.get(key, ..)`, `M[key]`, `M.pop(key, ..)`."""
+    out = []
+    for x in ast.walk(e):
+        if isinstance(x, ast.Call) and isinstance(x.func, ast.Attribute) and x.func.attr in ("get", "pop", "setdefault") and x.args and isinstance(x.args[0], ast.Name) and x.args[0].id == key:
+            if ast.dump(x.func.value) not in not_in:
+                out.append(x)
+        elif isinstance(x, ast.Subscript) and isinstance(x.ctx, ast.Load) and isinstance(x.slice, ast.Name) and x.slice.id == key and ast.dump(x.value) not in not_in:
+            out.append(x)
+    return out
+
+
+def rekeying_collision_rule(repo: Repo, R: Report) -> None:
+    """A source block may rename columns (`rename: {a: b}`).  The entries of one mapping have distinct keys, their
+    images under a user-supplied table need not: two columns that end under one name make the run space invalid
+    (documented as a configuration error; `_run` maps it to EXIT_CONFIG_ERROR, nothing runs).  `_run` can only
+    reject what `expand_run_space` *raises* for, so wherever the expansion re-files the entries of a mapping into a
+    fresh one under a key looked up in another mapping, the store must be reachable only over the edge of a test
+    that established `new key not in <what has been filed so far>` and whose other side raises - whatever the order
+    of the columns and whether or not the colliding column is itself renamed.  A test that is conjoined with another
+    condition lets the later column overwrite the earlier one silently; the plan is expanded and executed."""
+    from ..engine import qualname_of
+    from ..normal import nfunc
+
+    r = R.rule("C17-D1-rekeyed-entries-collision-rejected", "the expansion gate rejects a run space in which two columns end under one name instead of letting one overwrite the other: wherever expand_run_space (and what it calls) files the entries of a mapping into a fresh mapping under a key looked up in another mapping (rename table), every such store is reachable only over a branch edge that guarantees `new key not in <the mapping being filled / the record of keys filed so far>` and whose other side ends in a raise (or, for a comprehension, a raising comparison of the result's size with the source's follows)", 1)
+    top = repo.func(RUN_SPACE, "expand_run_space")
+    n_sites = 0
+    for _fid, (mod, f, _path) in sorted(_closure(repo, [(repo.module(RUN_SPACE), top)]).items(), key=lambda kv: (kv[1][0].rel, getattr(kv[1][1], "lineno", 0))):
+        if not isinstance(f, FuncNode):
+            continue
+        qn = qualname_of(f)
+        try:
+            nf = nfunc(repo, mod.rel, qn, consts=False)
+        except Exception:
+            nf = f
+        fresh = {n.targets[0].id for n in ast.walk(nf) if isinstance(n, ast.Assign) and len(n.targets) == 1 and isinstance(n.targets[0], ast.Name) and _is_empty_map(n.value)}
+        fresh |= {n.target.id for n in ast.walk(nf) if isinstance(n, ast.AnnAssign) and isinstance(n.target, ast.Name) and _is_empty_map(n.value)}
+        g: Optional[CFG] = None
+        for lp in [n for n in walk_no_nested(nf) if isinstance(n, ast.For)]:
+            K, M = _loop_key(lp)
+            if K is None:
+                continue
+            body_nodes = list({id(x): x for st in lp.body for x in [st, *walk_no_nested(st)]}.values())
+            single: Dict[str, List[ast.AST]] = {}
+            for x in body_nodes:
+                if isinstance(x, ast.Assign) and len(x.targets) == 1 and isinstance(x.targets[0], ast.Name):
+                    single.setdefault(x.targets[0].id, []).append(x.value)
+
+            def resolved(e: ast.AST) -> ast.AST:
+                if isinstance(e, ast.Name) and len(single.get(e.id, [])) == 1:
+                    return single[e.id][0]
+                return e
+
+            for st in body_nodes:
+                if not (isinstance(st, ast.Assign) and len(st.targets) == 1 and isinstance(st.targets[0], ast.Subscript) and isinstance(st.targets[0].value, ast.Name)):
+                    continue
+                D = st.targets[0].value.id
+                T = st.targets[0].slice
+                if D not in fresh:
+                    continue
+                looked = _lookups_keyed_by(resolved(T), K, {ast.dump(M), ast.dump(ast.Name(id=D, ctx=ast.Load()))})
+                if not looked:
+                    continue
+                n_sites += 1
+                if g is None:
+                    g = CFG(nf)
+                heads = g.nodes_for(lp)
+                ids = g.nodes_for(st)
+                if len(heads) != 1 or not ids:
+                    raise AnalysisError(f"{qn}: `{norm(st)[:60]}` not found in the control-flow graph")
+                tdump = ast.dump(resolved(T))
+                # what records the keys filed so far: the mapping itself, or a collection that receives the same key in the loop
+                records = {D}
+                for x in body_nodes:
+                    if isinstance(x, ast.Call) and isinstance(x.func, ast.Attribute) and x.func.attr in ("add", "append") and isinstance(x.func.value, ast.Name) and len(x.args) == 1 and ast.dump(resolved(x.args[0])) == tdump:
+                        records.add(x.func.value.id)
+                    if isinstance(x, ast.Assign) and len(x.targets) == 1 and isinstance(x.targets[0], ast.Subscript) and isinstance(x.targets[0].value, ast.Name) and ast.dump(resolved(x.targets[0].slice)) == tdump:
+                        records.add(x.targets[0].value.id)
+
+                def is_record(e: ast.AST) -> bool:
+                    if isinstance(e, ast.Call) and isinstance(e.func, ast.Attribute) and e.func.attr == "keys" and not e.args:
+                        e = e.func.value
+                    if isinstance(e, ast.Call) and isinstance(e.func, ast.Name) and e.func.id in ("set", "list", "tuple", "frozenset") and len(e.args) == 1:
+                        e = e.args[0]
+                    return isinstance(e, ast.Name) and e.id in records
+
+                def free(e: ast.AST) -> Optional[bool]:
+                    # the atom: "the new key is not among the keys filed so far"
+                    if isinstance(e, ast.Compare) and len(e.ops) == 1 and isinstance(e.ops[0], (ast.In, ast.NotIn)) and ast.dump(resolved(e.left)) == tdump and is_record(e.comparators[0]):
+                        return isinstance(e.ops[0], ast.NotIn)
+                    return None
+
+                head = heads[0]
+                blocked_edges: Set[Tuple[int, str]] = set()
+                weak: List[str] = []
+                for n in g.nodes:
+                    if n.kind not in ("if", "while") or n.part is None:
+                        continue
+                    labs = edges_guaranteeing(n.part, free)
+                    mentions = any(free(x) is not None for x in ast.walk(n.part))
+                    if not labs:
+                        if mentions:
+                            weak.append(f"`{norm(n.part)[:70]}` (line {n.line}) tests it only together with another condition: on the edge that leads to the store the key may already be present")
+                        continue
+                    for lab in labs:
+                        other = [t for t, l in g.succ[n.id] if l in ("T", "F") and l != lab]
+                        seen_o = g.reach(other)
+                        rejecting = bool(other) and head not in seen_o and g.ret_exit not in seen_o and not any(i in seen_o for i in ids) and (g.exc_exit in seen_o or any(m.kind == "stmt" and isinstance(m.ast, ast.Raise) and m.id in seen_o for m in g.nodes))
+                        if rejecting:
+                            blocked_edges.add((n.id, lab))
+                        else:
+                            weak.append(f"`{norm(n.part)[:70]}` (line {n.line}) does not end in a raise when the key is already present")
+                body_entry = [t for t, lab in g.succ[head] if lab == "T"]
+                seen = g.reach(body_entry, blocked_edges=blocked_edges, blocked={head})
+                hit = [i for i in ids if i in seen]
+                detail = ("; " + "; ".join(dict.fromkeys(weak))) if weak else ""
+                R.check(not hit, r, mod.rel, qn, norm(st)[:100], (f"`{norm(st)[:60]}` files each entry of `{norm(M)[:40]}` under a key looked up in `{norm(looked[0].func.value if isinstance(looked[0], ast.Call) else looked[0].value)[:40]}` and can be reached without a raising test having established that this key is not among the keys filed so far{detail}: two columns that end under one name (a renamed column and a column that already carries that name, in either order) are no longer a configuration error - the later one silently overwrites the earlier one, expand_run_space succeeds, `_run`'s `return EXIT_CONFIG_ERROR` for an invalid run space never fires and every run of the invalid plan is executed (sink output, trace file, exit 0); --run-space-dry-run prints the plan as valid" if hit else ""), st.lineno, g.path_to(seen, hit[0]) if hit else None)
+        # comprehension form: {M2.get(k, k): v for k, v in M.items()}
+        for dc in [n for n in ast.walk(nf) if isinstance(n, ast.DictComp) and len(n.generators) == 1]:
+            K, M = _loop_key(dc.generators[0])
+            if K is None or not _lookups_keyed_by(dc.key, K, {ast.dump(M)}):
+                continue
+            n_sites += 1
+            st = stmt_of(dc)
+            res = st.targets[0].id if isinstance(st, ast.Assign) and len(st.targets) == 1 and isinstance(st.targets[0], ast.Name) and st.value is dc else None
+            ok = False
+            if res is not None:
+                gg = CFG(nf)
+                for n in gg.nodes:
+                    if n.kind != "if" or n.part is None or not isinstance(n.part, ast.Compare) or len(n.part.ops) != 1 or not isinstance(n.part.ops[0], (ast.NotEq, ast.Lt, ast.Gt)):
+                        continue
+                    sides = [n.part.left, n.part.comparators[0]]
+                    lens = [s.args[0] for s in sides if isinstance(s, ast.Call) and isinstance(s.func, ast.Name) and s.func.id == "len" and len(s.args) == 1]
+                    if len(lens) == 2 and any(isinstance(x, ast.Name) and x.id == res for x in lens) and any(ast.dump(x) == ast.dump(M) for x in lens):
+                        tb = gg.reach([t for t, l in gg.succ[n.id] if l == "T"])
+                        if gg.ret_exit not in tb and any(m.kind == "stmt" and isinstance(m.ast, ast.Raise) and m.id in tb for m in gg.nodes) and all(gg.dominated_by_node(n.id, i) for i in gg.nodes_for(st)):
+                            ok = True
+            R.check(ok, r, mod.rel, qn, norm(st)[:100], f"`{norm(dc)[:70]}` re-keys the entries of `{norm(M)[:40]}` through a lookup table and nothing raises when two of them end under one name (no raising comparison of len(result) with len(source) follows): the later column silently overwrites the earlier one and the invalid run space is expanded and executed", getattr(st, "lineno", 0))
+    if n_sites == 0:
+        raise AnalysisError("expand_run_space: no place where source columns are re-filed under renamed keys was recognised (rename handling moved out of the expansion?)")
